@@ -1,8 +1,8 @@
 (* NanoISA text form: executable model of disasm_module (src/nanoisa/disassembler.c) and of the two-pass
    assembler asm_assemble (src/nanoisa/assembler.c), at the level of BYTES of the assembly text.
-   The model states what the C does (including what it does wrong): the comment stripping that runs before a
-   .string directive is parsed, the raw string inside the `; "..."` comment, the label cap with numeric fallback,
-   the global label table, the silently full patch table and the patch fix-up that also runs for numeric operands.
+   The model states what the C does: quote-aware comment stripping, the `; "..."` comment with its newline escape, the
+   label cap with numeric fallback, labels only on instruction boundaries, the per-function label table, the patch table
+   whose overflow is an error.
    The only thing not modelled by a Coq function is printf("%.17g") / strtod of a double: [print_f64]/[parse_f64]
    are Section variables (an oracle); every theorem states the hypothesis it needs about them.
    No proofs in this file (it is extracted). *)
@@ -179,6 +179,24 @@ Fixpoint collect (fuel : nat) (code_size : N) (bs : list byte) (pos : N) (labels
     end
   end.
 
+(* the string inside the `; "..."` comment of PUSH_STR: newline printed as \n *)
+Fixpoint esc_nl (s : list byte) : text :=
+  match s with [] => [] | c :: r => (if c =? 10 then [92; 110] else [c]) ++ esc_nl r end.
+
+(* the positions disasm_function's boundary scan visits: instruction starts, one byte forward where nothing decodes *)
+Fixpoint walk (fuel : nat) (bs : list byte) (pos : N) : list N :=
+  match fuel with O => [] | S f =>
+    match bs with
+    | [] => []
+    | _ :: r => pos :: match decode T bs with
+                       | Some (_, n) => walk f (skipn n bs) (pos + N.of_nat n)
+                       | None => walk f r (pos + 1) end
+    end
+  end.
+Definition on_boundary (c : list byte) (t : N) : bool := (t =? lenN c) || mem_N t (walk (length c) c 0).
+(* collect_jump_targets, then only the targets on an instruction boundary (or the end) keep a label, renumbered in order *)
+Definition fn_labels (c : list byte) : list N := filter (on_boundary c) (collect (length c) (lenN c) c 0 []).
+
 Definition label_name (i : N) : text := 76 :: print_dec i.          (* "L%u" *)
 Definition label_line (labels : list N) (pos : N) : text :=
   match index_of pos labels 0 with Some i => label_name i ++ [58; 10] | None => [] end.
@@ -192,7 +210,7 @@ Definition fmt_operand (m : module) (labels : list N) (pos : N) (o : N) (idx : n
       let plain := 32 :: print_dec v in
       if (o =? op_push_str) && Nat.eqb idx 0 then
         match nthN (m_strings m) v with
-        | Some s => plain ++ B "  ; """ ++ cstr s ++ [34]
+        | Some s => plain ++ B "  ; """ ++ esc_nl (cstr s) ++ [34]
         | None => plain end
       else if ((o =? op_call) || (o =? op_call_extern)) && Nat.eqb idx 0 then
         match nthN (m_funcs m) v with
@@ -228,16 +246,15 @@ Fixpoint dis_body (fuel : nat) (m : module) (labels : list N) (bs : list byte) (
     end
   end.
 Definition disasm_function (m : module) (code : list byte) : text :=
-  let labels := collect (length code) (lenN code) code 0 [] in
-  dis_body (S (length code)) m labels code 0.
+  dis_body (S (length code)) m (fn_labels code) code 0.
 
 Fixpoint escape (s : list byte) : text :=
   match s with
   | [] => []
-  | c :: r => (if c =? 10 then [92; 110] else if c =? 9 then [92; 116] else if c =? 92 then [92; 92]
+  | c :: r => (if c =? 0 then [92; 48] else if c =? 10 then [92; 110] else if c =? 9 then [92; 116] else if c =? 92 then [92; 92]
                else if c =? 34 then [92; 34] else [c]) ++ escape r
   end.
-Definition dis_string (s : list byte) : text := B ".string """ ++ escape (cstr s) ++ [34; 10].
+Definition dis_string (s : list byte) : text := B ".string """ ++ escape s ++ [34; 10].
 Definition slice (code : list byte) (off len : N) : list byte :=
   if lenN code <? off then [] else firstn (N.to_nat (N.min len (lenN code))) (skipn (N.to_nat off) code).
 Definition dis_fn (m : module) (f : fent) : text :=
@@ -282,16 +299,10 @@ Definition add_label (st : astate) (name : text) : option astate :=
                     a_patches := a_patches st; a_in_fn := a_in_fn st; a_cur := a_cur st;
                     a_rcode := a_rcode st; a_size := a_size st |}
   end.
-(* add_patch drops the patch silently when the table is full *)
-Definition add_patch (st : astate) (name : text) (start : N) : astate :=
-  if max_patches <=? lenN (a_patches st) then st
-  else set_patches st (a_patches st ++ [{| p_label := name; p_code_off := 0 (* fixed up by the caller *); p_start := start; p_fn := a_cur st |}]).
-(* assemble_instruction, after every OPERAND_I32 operand (label or number): patches[patch_count-1].code_offset = patch_offset *)
-Fixpoint fix_last (ps : list patch) (off : N) : list patch :=
-  match ps with
-  | [] => []
-  | [p] => [{| p_label := p_label p; p_code_off := off; p_start := p_start p; p_fn := p_fn p |}]
-  | p :: r => p :: fix_last r off end.
+(* add_patch refuses when the table is full (ASM_ERR_MEMORY); the patch carries the offset of the operand *)
+Definition add_patch (st : astate) (name : text) (start off : N) : option astate :=
+  if max_patches <=? lenN (a_patches st) then None
+  else Some (set_patches st (a_patches st ++ [{| p_label := name; p_code_off := off; p_start := start; p_fn := a_cur st |}])).
 
 (* encode_operand + fn_emit for one operand; inr = error code *)
 Definition asm_operand (st : astate) (k : okind) (l : text) (start : N) : (astate * text) + N :=
@@ -307,15 +318,14 @@ Definition asm_operand (st : astate) (k : okind) (l : text) (start : N) : (astat
           if is_alpha_ c then
             match parse_identifier l' patch_label_size with
             | Some (name, r) =>
-                let st1 := add_patch st name start in
-                let st2 := set_patches st1 (fix_last (a_patches st1) patch_offset) in
-                inl (emit st2 [0; 0; 0; 0], r)
+                match add_patch st name start patch_offset with
+                | Some st1 => inl (emit st1 [0; 0; 0; 0], r)
+                | None => inr asm_err_memory end
             | None => inr asm_err_bad_operand end
           else
             match parse_range (-2147483648) 2147483647 l' with
             | Some (v, r) =>
-                let st2 := set_patches st (fix_last (a_patches st) patch_offset) in
-                inl (emit st2 (le_bytes 4 (of_signed 32 v)), r)
+                inl (emit st (le_bytes 4 (of_signed 32 v)), r)
             | None => inr asm_err_bad_operand end
       | [] => inr asm_err_bad_operand
       end
@@ -404,7 +414,7 @@ Definition do_directive (st : astate) (d p : text) : astate + N :=
         inl {| a_mod := {| m_flags := m_flags m; m_entry := m_entry m; m_strings := m_strings m;
                            m_funcs := set_fn_code (m_funcs m) (a_cur st) (lenN (m_code m)) (a_size st);
                            m_code := m_code m ++ code |};
-               a_labels := a_labels st;
+               a_labels := [];
                a_patches := filter (fun p => negb (p_fn p =? a_cur st)) (a_patches st);
                a_in_fn := false; a_cur := a_cur st; a_rcode := a_rcode st; a_size := a_size st |}
     end
@@ -463,16 +473,26 @@ Definition process_line (st : astate) (line : text) : astate + N :=
       | None => instr end
   end.
 
-(* asm_assemble's per-line preparation: cut at the first ';', then at the first '#', then trim blanks, tabs, CRs on the right *)
-Fixpoint cut_at (c : byte) (l : text) : text :=
-  match l with [] => [] | x :: r => if x =? c then [] else x :: cut_at c r end.
+(* asm_assemble's per-line preparation: cut at the first ';' or '#' outside a quoted string, then trim blanks, tabs, CRs on the right *)
+Fixpoint cut_comment (in_str : bool) (l : text) : text :=
+  match l with
+  | [] => []
+  | c :: r =>
+      if in_str then
+        if c =? 92 then match r with [] => [c] | e :: r' => c :: e :: cut_comment true r' end
+        else if c =? 34 then c :: cut_comment false r
+        else c :: cut_comment true r
+      else if c =? 34 then c :: cut_comment true r
+      else if (c =? 59) || (c =? 35) then []
+      else c :: cut_comment false r
+  end.
 Definition is_trail (c : byte) : bool := (c =? 32) || (c =? 9) || (c =? 13).
 Fixpoint rtrim (l : text) : text :=
   match l with
   | [] => []
   | x :: r => match rtrim r with [] => if is_trail x then [] else [x] | r' => x :: r' end
   end.
-Definition prep_line (l : text) : text := rtrim (cut_at 35 (cut_at 59 l)).
+Definition prep_line (l : text) : text := rtrim (cut_comment false l).
 
 (* the text as the C sees it: up to the first NUL, split at '\n' (a final line without '\n' counts, an empty tail does not) *)
 Fixpoint split_lines (l : text) (cur : text) : list text :=
@@ -514,38 +534,23 @@ Fixpoint decode_all (fuel : nat) (bs : list byte) (pos : N) : option (list (N * 
         end
       end
   end.
-Definition bnd_of (c : list byte) (l : list (N * instr)) : list N := map fst l ++ [lenN c].
-(* every jump operand got a label (so: target <= size and the cap of max_disasm_labels was not hit) *)
-Fixpoint targets_ok (ks : list okind) (vs : list N) (pos : N) (labels : list N) : bool :=
-  match ks, vs with
-  | k :: ks', v :: vs' => (if okind_eqb k KI32 then mem_N (u32 (pos + v)) labels else true) && targets_ok ks' vs' pos labels
-  | _, _ => true end.
 Fixpoint f64s_ok (ks : list okind) (vs : list N) : bool :=
   match ks, vs with
   | k :: ks', v :: vs' => (if okind_eqb k KF64 then good v else true) && f64s_ok ks' vs'
   | _, _ => true end.
 Definition count_i32 (ks : list okind) : N := lenN (filter (fun k => okind_eqb k KI32) ks).
-Definition fn_labels (c : list byte) : list N := collect (length c) (lenN c) c 0 [].
 Definition code_of (m : module) (f : fent) : list byte := slice (m_code m) (fn_off f) (fn_len f).
 Definition on_code (c : list byte) (chk : list (N * instr) -> bool) : bool :=
   match decode_all (length c) c 0 with Some l => chk l | None => true end.
 
 Definition code_decodes (c : list byte) : bool :=
   match decode_all (length c) c 0 with Some _ => true | None => false end.
-Definition code_targets (c : list byte) : bool :=
-  let labels := fn_labels c in
-  on_code c (forallb (fun pi => targets_ok (kinds_of (op (snd pi))) (args (snd pi)) (fst pi) labels)).
-Definition code_boundaries (c : list byte) : bool :=
-  let labels := fn_labels c in
-  on_code c (fun l => let bnd := bnd_of c l in forallb (fun t => mem_N t bnd) labels).
 Definition code_patches (c : list byte) : bool :=
   on_code c (fun l => fold_right (fun pi a => count_i32 (kinds_of (op (snd pi))) + a) 0 l <=? max_patches).
 Definition code_f64 (c : list byte) : bool :=
   on_code c (forallb (fun pi => f64s_ok (kinds_of (op (snd pi))) (args (snd pi)))).
-Definition wf_codeb (c : list byte) : bool :=
-  code_decodes c && code_targets c && code_boundaries c && code_patches c && code_f64 c.
+Definition wf_codeb (c : list byte) : bool := code_decodes c && code_patches c && code_f64 c.
 
-Definition no_byte (bad : byte -> bool) (s : list byte) : bool := forallb (fun c => negb (bad c)) s.
 Fixpoint distinct_strs (l : list (list byte)) : bool :=
   match l with [] => true | s :: r => negb (existsb (bytes_eqb s) r) && distinct_strs r end.
 Definition fname_okb (s : list byte) : bool :=
@@ -559,9 +564,6 @@ Fixpoint layout_okb (fs : list fent) (off : N) (total : N) : bool :=
 Definition all_strings (m : module) (chk : list byte -> bool) : bool := forallb chk (m_strings m).
 Definition all_codes (m : module) (chk : list byte -> bool) : bool := forallb (fun f => chk (code_of m f)) (m_funcs m).
 
-Definition wf_str_nul (m : module) : bool := all_strings m (no_byte (fun c => c =? 0)).
-Definition wf_str_nl (m : module) : bool := all_strings m (no_byte (fun c => c =? 10)).
-Definition wf_str_comment (m : module) : bool := all_strings m (no_byte (fun c => (c =? 59) || (c =? 35))).
 Definition wf_str_len (m : module) : bool := all_strings m (fun s => lenN s <? string_buf).
 Definition wf_str_bytes (m : module) : bool := all_strings m (forallb (fun c => c <? 256)).
 Definition wf_distinct (m : module) : bool := distinct_strs (m_strings m).
@@ -572,40 +574,29 @@ Definition wf_fn_names (m : module) : bool :=
 Definition wf_layout (m : module) : bool := layout_okb (m_funcs m) 0 (lenN (m_code m)) && (lenN (m_code m) <? 4294967296).
 Definition wf_code_bytes (m : module) : bool := forallb (fun c => c <? 256) (m_code m).
 Definition wf_code_decodes (m : module) : bool := all_codes m code_decodes.
-Definition wf_code_targets (m : module) : bool := all_codes m code_targets.
-Definition wf_code_boundaries (m : module) : bool := all_codes m code_boundaries.
 Definition wf_code_patches (m : module) : bool := all_codes m code_patches.
 Definition wf_code_f64 (m : module) : bool := all_codes m code_f64.
-Definition wf_label_total (m : module) : bool :=
-  fold_right (fun f a => lenN (fn_labels (code_of m f)) + a) 0 (m_funcs m) <=? max_labels.
 Definition wf_entry (m : module) : bool := (m_entry m <? 4294967296).
 Definition wf_conjuncts (m : module) : list bool :=
-  [ wf_str_nul m; wf_str_nl m; wf_str_comment m; wf_str_len m; wf_str_bytes m; wf_distinct m; wf_fn_fields m; wf_fn_names m;
-    wf_layout m; wf_code_bytes m; wf_code_decodes m; wf_code_targets m; wf_code_boundaries m; wf_code_patches m; wf_code_f64 m;
-    wf_label_total m; wf_entry m ].
+  [ wf_str_len m; wf_str_bytes m; wf_distinct m; wf_fn_fields m; wf_fn_names m;
+    wf_layout m; wf_code_bytes m; wf_code_decodes m; wf_code_patches m; wf_code_f64 m; wf_entry m ].
 Definition wf_moduleb (m : module) : bool := forallb (fun b => b) (wf_conjuncts m).
 
-(* the same conjuncts, computed with one decode and one label collection per function (what nvref evaluates; equality with
-   wf_conjuncts is proved in NV.Isa.AsmProofs) *)
+(* the same conjuncts, computed with one decode per function (what nvref evaluates; equality with wf_conjuncts is proved
+   in NV.Isa.AsmProofs) *)
 Definition code_checks (c : list byte) : list bool :=
   match decode_all (length c) c 0 with
-  | None => [false; true; true; true; true]
+  | None => [false; true; true]
   | Some l =>
-      let labels := fn_labels c in
-      let bnd := bnd_of c l in
       [ true;
-        forallb (fun pi => targets_ok (kinds_of (op (snd pi))) (args (snd pi)) (fst pi) labels) l;
-        forallb (fun t => mem_N t bnd) labels;
         fold_right (fun pi a => count_i32 (kinds_of (op (snd pi))) + a) 0 l <=? max_patches;
         forallb (fun pi => f64s_ok (kinds_of (op (snd pi))) (args (snd pi))) l ]
   end.
 Definition wf_conjuncts_fast (m : module) : list bool :=
-  let codes := map (code_of m) (m_funcs m) in
-  let reps := map code_checks codes in
+  let reps := map (fun f => code_checks (code_of m f)) (m_funcs m) in
   let col (k : nat) := forallb (fun r => nth k r true) reps in
-  [ wf_str_nul m; wf_str_nl m; wf_str_comment m; wf_str_len m; wf_str_bytes m; wf_distinct m; wf_fn_fields m; wf_fn_names m;
-    wf_layout m; wf_code_bytes m; col 0%nat; col 1%nat; col 2%nat; col 3%nat; col 4%nat;
-    fold_right (fun c a => lenN (fn_labels c) + a) 0 codes <=? max_labels; wf_entry m ].
+  [ wf_str_len m; wf_str_bytes m; wf_distinct m; wf_fn_fields m; wf_fn_names m;
+    wf_layout m; wf_code_bytes m; col 0%nat; col 1%nat; col 2%nat; wf_entry m ].
 
 End WithTable.
 
